@@ -4,6 +4,8 @@ from vlib import lcplan
 
 def plan(tier):
     qs = lcplan.allocfail_queries(tier) + lcplan.inert_queries(tier) + lcplan.par_allocfail_queries(tier)
+    from vlib.core import Q
+    qs.append(Q('calloc:skinny_calloc:624', 'c15calloc.c', 'skinny_calloc with each of its allocation requests allowed to fail: NULL is propagated and nothing obtained on the way is leaked (the vector inits allocate through it)', defs={'SIZE': 624}, timeout=300))
     return dict(queries=qs, level='model_checking', pre=[pre_layout],
                 functions=['{skinny128,skinny64,mantis}_ctr_init (dispatcher)', '*_ctr_def_init', '*_ctr_vec*_init (clang IR)', 'every CTR entry point on an inert handle', 'parallel-ECB objects: see C16 parallel queries'],
                 bounds={'allocation': 'the single allocation each init makes fails', 'prior handle content': 'arbitrary bytes', 'stage 2': 'all calls from every inert handle state (vtable null with arbitrary ctx; vtable set with null ctx)'},
